@@ -534,6 +534,23 @@ Theorem rdataset_eq_spec : forall a b,
 Proof. exact r_eq_spec. Qed.
 Print Assumptions rdataset_eq_spec.
 
+(* == on rdatasets is reflexive and symmetric; it is transitive except through a plain Rdataset
+   between two RRsets (RRset.__eq__ ignores the owner name against a plain Rdataset, see
+   ex_eq_not_transitive_across_kinds) *)
+Theorem rdataset_eq_refl : forall a, wf a -> r_eq a a = true.
+Proof. exact r_eq_refl. Qed.
+Print Assumptions rdataset_eq_refl.
+
+Theorem rdataset_eq_sym : forall a b, wf a -> wf b -> r_eq a b = r_eq b a.
+Proof. exact r_eq_sym. Qed.
+Print Assumptions rdataset_eq_sym.
+
+Theorem rdataset_eq_trans : forall a b c,
+  wf a -> wf b -> wf c -> kd b = KRR \/ (kd a <> KRR \/ kd c <> KRR) ->
+  r_eq a b = true -> r_eq b c = true -> r_eq a c = true.
+Proof. exact r_eq_trans. Qed.
+Print Assumptions rdataset_eq_trans.
+
 Theorem immutable_mutators_raise : forall st op r s,
   nth_error st r = Some s -> kd s = KImm -> op_self op = Some r -> imm_blocked op = true ->
   match op with RInpl _ _ o => nth_error st o <> None | _ => True end ->
@@ -570,6 +587,20 @@ Theorem processing_order_by_priority :
     forall items, StronglySorted (le_prio A prio) (processing_order A shuffle prio true items).
 Proof. exact processing_order_sorted. Qed.
 Print Assumptions processing_order_by_priority.
+
+(* weighted_processing_order (SRV, URI): whatever random.uniform returns, a rearrangement in
+   non-decreasing priority order *)
+Theorem weighted_order_is_rearrangement :
+  forall (A : Type) (uniform : Z -> Z) (prio weight : A -> Z) items,
+    Permutation items (weighted_order A uniform prio weight items).
+Proof. exact weighted_order_perm. Qed.
+Print Assumptions weighted_order_is_rearrangement.
+
+Theorem weighted_order_by_priority :
+  forall (A : Type) (uniform : Z -> Z) (prio weight : A -> Z) items,
+    StronglySorted (le_prio A prio) (weighted_order A uniform prio weight items).
+Proof. exact weighted_order_sorted. Qed.
+Print Assumptions weighted_order_by_priority.
 
 (* ---------------- immutability guard, constify ---------------- *)
 
@@ -774,3 +805,10 @@ Example ex_processing_order :
   (forall l : list (Z * Z), Permutation l (rev l)) /\
   processing_order (Z * Z) (@rev _) fst true [(10, 1); (5, 2); (10, 3); (0, 4)] = [(0, 4); (5, 2); (10, 3); (10, 1)].
 Proof. split; [apply Permutation_rev|reflexivity]. Qed.
+
+Example ex_eq_not_transitive_across_kinds :
+  let rr1 := mkRds KRR 1 2 0 0 [ex_a] [[120]; []] None in
+  let rr2 := mkRds KRR 1 2 0 0 [ex_a] [[121]; []] None in
+  let plain := mkRds KRds 1 2 0 9 [ex_A] [] None in
+  r_eq rr1 plain = true /\ r_eq plain rr2 = true /\ r_eq rr1 rr2 = false.
+Proof. repeat split. Qed.
